@@ -71,6 +71,10 @@ def run(tier):
             cmds += corpus.sample(groups["Xrule"], 150 if smt else 10 ** 6, seed + i) + corpus.sample(groups["Xvoc"], 80 if smt else 6000, seed + i)
             cmds += corpus.sample(groups["Xchain"], 100 if smt else 3000, seed + i)
             cmds += corpus.sample(groups["S"], 20 if smt else 600, seed + i) + corpus.sample(groups["R"], 80 if smt else 10 ** 6, seed + i)
+        if crit_of(argv) == "gas" and not smt:
+            cmds += groups["Xwarm"]          # warm/cold pricing: account and storage accesses on shared values
+        elif crit_of(argv) == "gas":
+            cmds += corpus.sample(groups["Xwarm"], 60, seed + i)
         jobs.append((name, argv, [dict(c) for c in cmds]))
     # whole small contracts for the totals
     rnd = random.Random(seed)
